@@ -34,12 +34,25 @@ files as bytes, one character per byte, so offsets stay byte offsets; comment li
 bytes) as long as the text encoding of the target (what ``open()`` uses by default for a path, the
 ``encoding`` of a handle, none for StringIO) can encode the generated header at all.
 
+Targets: "Name or file handle" is taken the way numpy's text writer / reader take it -- any ``str`` or
+``os.PathLike`` whose ``__fspath__`` is a ``str`` (pathlib or not), and any object with ``write()`` (saving) /
+that hands out lines (loading), whether or not it derives from ``io.IOBase``.  Handles that carry a file name
+(``open()``, ``NamedTemporaryFile``, ``codecs.open``, ``gzip.open(..., 'wt')``) are looked into through that
+name; for the others (``TemporaryFile``, ``SpooledTemporaryFile``, ``TextIOWrapper`` over ``BytesIO``, bz2 /
+lzma text handles, user objects) the driver registers *where the text can be observed* (``Monitors.register``);
+a bz2 / lzma handle shows its text only once closed, so its file is judged then (``finish_target``).
+
+Coordinates: only the coordinate that is WRITTEN (named with ``coord=`` or selected by the documented rule)
+decides whether the data can be represented; every other coordinate may be of any kind scipp lets a 1-d data
+array carry (bin-edges, other dtypes, variances, scalars, leftovers of slicing).
+
 Nothing here calls scippneutron to obtain an expected value: expectations are the supplied
 arrays themselves (bytes) and a long-double square root.
 """
 
 from __future__ import annotations
 
+import codecs
 import io
 import os
 import pathlib
@@ -68,9 +81,18 @@ RULE = (
     'StringIO(newline=None), text handle, CRLF text handle), coordinate state (built from variables; '
     'alignment flags cleared at random; integer slice / length-1 range + squeeze of 2-d data in either '
     'memory layout, 1-d and 2-d coordinates, outer coordinates left behind as unaligned scalars; plain '
-    'scalar coordinates; dimension-coordinate present or not); or one save_xye call on an input class '
+    'scalar coordinates; dimension-coordinate present or not), kind of the coordinates that are NOT written '
+    '(every kind x written one named with coord= / deduced as dimension-coordinate / the unwritten one being the '
+    'dimension-coordinate: bin-edges of float, int, string, datetime; int64, int32, float32, bool, string, '
+    'datetime, vector, with variances; scalar string / datetime / vector / int; bin-edges of the dimension '
+    'sliced away; several kinds side by side), kind of file-like target written x kind of source read '
+    '(NamedTemporaryFile, TemporaryFile, SpooledTemporaryFile in memory and rolled over, codecs.open in ascii / '
+    'utf-8 / latin-1, gzip / bz2 / lzma text handles, TextIOWrapper over BytesIO, an object with nothing but '
+    'write(), os.PathLike that is not pathlib.Path, PurePosixPath, os.DirEntry, str subclass; read through the '
+    'same object, a path of any of these kinds, a default text handle, a codecs reader, a decompressing text '
+    'handle, an iterator / iterable of lines); or one save_xye call on an input class '
     'the format cannot represent (same coordinate states); or one stream case: a StringIO or real text '
-    'handle (w+, w+ CRLF, a+, w then a second read handle) receives 2..5 things in a row (tables, refused '
+    'handle (w+, w+ CRLF, a+, w then a second read handle, NamedTemporaryFile, TemporaryFile, SpooledTemporaryFile) receives 2..5 things in a row (tables, refused '
     'saves, caller-written title / comment / number lines), tables are read back from their start offset '
     '(seek, or reading lines up to it, or reading on into header / rows) right after they were written and '
     'at the end, from offset 0 and through the path.  distinct = distinct (accept/refuse class, target, '
@@ -92,6 +114,14 @@ ASSUMPTIONS = [
     'selects a coordinate without a value per row (a scalar), the save is executed and counted, not judged',
     'zero-dimensional input counts as "not one-dimensional" and must be refused (docstring: "The input must be '
     '1-dimensional"; the code raises DimensionError for ndim != 1)',
+    '"path and file-object targets" are what numpy.savetxt / numpy.loadtxt take as "filename or file handle" on the '
+    'unchanged tree: str and os.PathLike names (fspath a str), objects with write() / objects that hand out lines, '
+    'io.IOBase or not. bytes names, integer file descriptors (rejected by numpy itself) and binary handles (the '
+    'signature says TextIO) are outside: counted or not generated',
+    'a codecs stream reader ends lines wherever str.splitlines does (VT, FF, FS, GS, RS, NEL, LS, PS); files and '
+    'numpy do not: a load through such a reader of text holding these characters is executed and counted, not judged',
+    'only the coordinate that is written decides representability ("bin edges" = the written coordinate is '
+    'bin-edges); data or written coordinate of another dtype than float64 are outside the quantifier: counted',
     'header text supplied by the caller outside ASCII is outside the quantifier: executed and counted, not '
     'judged. The header save_xye generates itself (coordinate name, unit strings such as scipp prints for '
     'angstrom, us, degC) belongs to the data, not to the caller: such files are judged, provided the text '
@@ -201,7 +231,71 @@ def coord_states(da):
     out = {}
     try:
         for nm, c in da.coords.items():
-            out[str(nm)] = ('aligned' if c.aligned else 'unaligned') + ':' + ('scalar' if c.ndim == 0 else 'x'.join(c.dims))
+            out[str(nm)] = ('aligned' if c.aligned else 'unaligned') + ':' + ('scalar' if c.ndim == 0 else 'x'.join(c.dims)) \
+                + ':' + str(c.dtype) + str(list(c.shape)) + ('+variances' if c.variances is not None else '')
+    except Exception:  # noqa: BLE001
+        pass
+    return out
+
+
+def decompress_tolerant(raw, suffix):
+    """Content of a compressed file as far as it can be read: a handle that is still open has flushed
+    only part of a stream; a file may hold several streams one after the other (append mode).
+    Bytes that are not such a stream at all are returned as they are."""
+    import bz2
+    import lzma
+    import zlib
+    make = {'.gz': lambda: zlib.decompressobj(31), '.bz2': bz2.BZ2Decompressor,
+            '.xz': lzma.LZMADecompressor}[suffix]
+    out, rest = b'', raw
+    try:
+        while rest:
+            d = make()
+            out += d.decompress(rest)
+            if not d.eof:
+                break
+            rest = d.unused_data
+    except Exception:  # noqa: BLE001  plain text under a compressed name: load will fail
+        return raw if not out else out
+    return out
+
+
+def path_reader(p):
+    """read() -> the text under a path as its readers see it (bytes, one character per byte;
+    decompressed by file name as numpy does), None if there is no file."""
+    def read():
+        if not os.path.exists(p):
+            return None
+        with open(p, 'rb') as f:
+            raw = f.read()
+        for suffix in ('.gz', '.bz2', '.xz'):
+            if p.endswith(suffix):
+                raw = decompress_tolerant(raw, suffix)
+        return raw.decode('latin-1')
+    return read
+
+
+def other_coord_classes(da, chosen):
+    """What the coordinates that are NOT written look like (the property speaks of the chosen one only)."""
+    out = set()
+    try:
+        for nm, c in da.coords.items():
+            if str(nm) == str(chosen):
+                continue
+            dt = str(c.dtype)
+            if c.ndim == 0:
+                cl = 'scalar' if dt == 'float64' else 'scalar_' + dt
+            elif c.dims != da.dims:
+                cl = 'not_along_dim' + ('_edges' if c.ndim == 1 and c.shape[0] == 2 else '')
+            elif c.shape[0] == da.shape[0] + 1:
+                cl = 'edges' if dt == 'float64' else 'edges_' + dt
+            elif c.variances is not None:
+                cl = 'variances'
+            else:
+                cl = 'points' if dt == 'float64' else dt
+            out.add(cl)
+            if cl.startswith('edges') and da.ndim == 1 and str(nm) == da.dim:
+                out.add('edges_is_dimension_coordinate')
     except Exception:  # noqa: BLE001
         pass
     return out
@@ -223,6 +317,26 @@ class Monitors:
         self.gen_header = None
         self.deduced = None
         self._dups = {}
+        # file objects the monitors cannot look into on their own (no name, content in memory or behind a
+        # compressor, write-only / read-only user objects): whoever drives the call says how the target can be
+        # OBSERVED (where its text is, where it stands).  Nothing in here says what is expected.
+        self.observers = {}
+
+    def register(self, obj, key, read, conv='universal', pos=None, encoding=None, deferred=False):
+        """``read()`` -> text of the target (None: nothing there), ``pos()`` -> position of the object in
+        that text (default: its tell()), ``encoding``: codec of its text layer (None: characters are kept),
+        ``deferred``: the text only becomes visible when the target is closed (``finish_target``)."""
+        if isinstance(encoding, str):
+            try:
+                encoding = codecs.lookup(encoding).name
+            except LookupError:
+                encoding = 'unknown'
+        self.observers[id(obj)] = {'obj': obj, 'key': key, 'read': read, 'conv': conv, 'pos': pos,
+                                   'encoding': encoding, 'deferred': deferred}
+
+    def observer(self, fname):
+        o = self.observers.get(id(fname))
+        return o if o is not None and o['obj'] is fname else None
 
     # ---- reporting with a cap per mechanism -------------------------------
     def viol(self, kind, what, case, **keys):
@@ -245,6 +359,9 @@ class Monitors:
         Positions are ``tell()`` values: characters of ``getvalue()`` for StringIO, byte offsets for
         text handles of real files (the monitors read real files as bytes, one character per byte)."""
         lab = self.label.get('target')
+        obs = self.observer(fname)
+        if obs is not None:
+            return obs['key'], lab or 'registered', obs['conv'], obs['read']
         if isinstance(fname, io.StringIO):
             # StringIO(newline=None) translates CR / CRLF to LF when written to (universal newlines);
             # a plain StringIO() keeps the text and ends lines at LF only
@@ -255,7 +372,10 @@ class Monitors:
             return (('sio', id(fname)), lab or ('stringio_universal' if universal else 'stringio'),
                     'universal' if universal else 'lf', fname.getvalue)
         if isinstance(fname, str | os.PathLike):
-            p = os.path.realpath(os.fspath(fname))
+            fs = os.fspath(fname)
+            if not isinstance(fs, str):     # bytes names: numpy's text readers / writers do not take them
+                return None, 'unknown', 'universal', lambda: None
+            p = os.path.realpath(fs)
             kind = lab or 'path'
         elif hasattr(fname, 'name') and isinstance(getattr(fname, 'name', None), str):
             p = os.path.realpath(fname.name)
@@ -268,20 +388,7 @@ class Monitors:
         else:
             return None, 'unknown', 'universal', lambda: None
 
-        def read():
-            if not os.path.exists(p):
-                return None
-            with open(p, 'rb') as f:
-                raw = f.read()
-            for suffix, modname in (('.gz', 'gzip'), ('.bz2', 'bz2'), ('.xz', 'lzma')):
-                if p.endswith(suffix):
-                    import importlib
-                    try:
-                        raw = importlib.import_module(modname).decompress(raw)
-                    except Exception:  # noqa: BLE001  plain text under a compressed name: load will fail
-                        pass
-            return raw.decode('latin-1')
-        return ('path', p), kind, 'universal', read
+        return ('path', p), kind, 'universal', path_reader(p)
 
     @staticmethod
     def is_stream(fname):
@@ -290,13 +397,15 @@ class Monitors:
     # ---- text encodings (only relevant for generated headers outside ASCII) ----
     _default_encoding = None
 
-    @classmethod
-    def target_encoding(cls, fname):
+    def target_encoding(self, fname):
         """Codec name of the text layer of a target; None for StringIO (characters are kept as they are).
 
         A path is opened by whoever reads / writes it without an encoding argument: what ``open()`` uses
         then is observed once on os.devnull (no call into the package)."""
-        import codecs
+        cls = type(self)
+        obs = self.observer(fname)
+        if obs is not None:
+            return obs['encoding']
         if isinstance(fname, io.StringIO):
             return None
         if isinstance(fname, str | os.PathLike):
@@ -328,13 +437,16 @@ class Monitors:
             return 'path_compressed' if str(key[1]).endswith(('.gz', '.bz2', '.xz')) else 'path'
         return 'handle'
 
-    @staticmethod
-    def position(fname):
+    def position(self, fname):
         """Current position of a file object, or None when it cannot be observed as a plain offset."""
         try:
-            if fname.closed or not fname.seekable():
+            obs = self.observer(fname)
+            if obs is not None and obs['pos'] is not None:
+                p = obs['pos']()
+            elif fname.closed or not fname.seekable():
                 return None
-            p = fname.tell()
+            else:
+                p = fname.tell()
         except Exception:  # noqa: BLE001  e.g. tell() disabled by next(), detached buffer
             return None
         # text handles encode decoder state in the high bits of the cookie: not a plain offset then
@@ -444,7 +556,12 @@ class Monitors:
         if pre is None or pre.get('pos') is None:
             return None
         end = self.position(fname)
-        if end is None or end < pre['pos'] or end > len(text or ''):
+        if end is None or end < pre['pos']:
+            return None
+        obs = self.observer(fname)
+        if obs is not None and obs['deferred']:
+            return (pre['pos'], end, None)      # the text is looked at when the target is closed
+        if end > len(text or ''):
             return None
         return (pre['pos'], end, pre.get('text'))
 
@@ -470,6 +587,7 @@ class Monitors:
         cl = '+'.join(sorted(classes))
         case = dict(base, input_classes=sorted(classes))
         ctx.event('save_xye.refusal')
+        ctx.hit('refuse_on:' + str(tkind))
         for c in classes:
             ctx.hit('refuse:' + c)
         try:
@@ -523,6 +641,9 @@ class Monitors:
             stream = self.is_stream(ev.args['fname'])
             if span is not None:
                 case['written_span'] = [span[0], span[1]]
+            others = other_coord_classes(da, chosen)
+            float64_in = da.dtype == sc.DType.float64 and da.coords[chosen].dtype == sc.DType.float64 \
+                and da.coords[chosen].variances is None
             # text outside ASCII: a caller's header is outside the quantifier; the header the package
             # generates from the data (coordinate name, unit strings) is judged when the text encoding
             # of the target can hold it at all
@@ -576,10 +697,46 @@ class Monitors:
                 and np.all(var >= 0) and n >= 1):
             ctx.count('out_of_domain:non_finite_or_negative_variance_or_empty')
             return
+        if not float64_in:
+            ctx.count('out_of_domain:data_or_written_coordinate_not_plain_float64')
+            return
         seg.update({'judged': True, 'x': x, 'y': y, 'var': var, 'n': n, 'keys': keys, 'case': case,
                     'file_header_escaped': False, 'keep': ev.args['fname'], 'chosen': chosen,
-                    'non_ascii': non_ascii})
+                    'non_ascii': non_ascii, 'conv': conv, 'facts': facts, 'stream': stream, 'before': before,
+                    'others': others, 'coord_mode': 'deduced' if ev.args.get('coord') is None else 'explicit'})
+        obs = self.observer(ev.args['fname'])
+        if obs is not None and obs['deferred']:
+            seg['pending'] = True
+            ctx.count('info:file_judged_when_target_is_closed')
+            return
+        self.judge_text(seg, text)
+
+    def finish_target(self, fname):
+        """The target has been closed: what was put into it while its text could not be seen is judged now."""
+        ctx = self.ctx
+        try:
+            obs = self.observer(fname)
+            if obs is None:
+                return
+            obs['deferred'] = False
+            text = obs['read']()
+            todo = [g for g in self.ledger.get(obs['key'], []) if g.get('pending')]
+        except Exception:  # noqa: BLE001
+            ctx.oracle_error('C15 file monitor (target closed)')
+            return
+        for g in todo:
+            g['pending'] = False
+            g['text'] = None if text is None else text[g['start']:g['end']]
+            if g['judged']:
+                self.judge_text(g, text)
+
+    def judge_text(self, seg, text):
+        """``text``: what the target holds; ``seg``: what one save_xye call was given and where it wrote."""
+        ctx = self.ctx
         entry = seg
+        x, y, var, n, keys, case = seg['x'], seg['y'], seg['var'], seg['n'], seg['keys'], seg['case']
+        conv, facts, stream, before, a = seg['conv'], seg['facts'], seg['stream'], seg['before'], seg['start']
+        seg_text = seg['text']
         try:
             if text is None:
                 self.viol('file_missing', 'save_xye returned but the target does not exist', case, **keys)
@@ -624,6 +781,8 @@ class Monitors:
             col, i, d = self._rows_match(rows, x, y, exp_e)
             fe = np.array([r[2] for r in rows])
             ctx.dev('file.col3_ulp_vs_longdouble_sqrt', ulp_dist(fe, exp_e)[0])
+            if col is None:
+                ctx.hit('file_judged:' + str(keys['target']))
             if col is not None:
                 want = {'x': x, 'y': y, 'e': exp_e}[col][i]
                 got = rows[i][{'x': 0, 'y': 1, 'e': 2}[col]]
@@ -705,6 +864,7 @@ class Monitors:
         try:
             fname = ev.args['fname']
             key, tkind, conv, read = self.target_of(fname)
+            tkind = self.label.get('reader') or tkind
             segs = self.ledger.get(key)
         except Exception:  # noqa: BLE001
             ctx.oracle_error('C15 round-trip monitor (lookup)')
@@ -736,6 +896,18 @@ class Monitors:
             if not all(g['judged'] for g, _ in parts):
                 ctx.count('out_of_domain:load_of_unjudged_file')
                 return
+            if isinstance(fname, codecs.StreamReader | codecs.StreamReaderWriter):
+                # these readers end a line wherever str.splitlines does (VT, FF, FS, GS, RS, NEL, LS, PS), files
+                # and numpy's writer do not: header text with such characters is read as more lines than written
+                seen = text[pos:]
+                if not seen.isascii():
+                    try:
+                        seen = seen.encode('latin-1').decode(getattr(fname, 'encoding', None) or 'utf-8')
+                    except (UnicodeError, LookupError):
+                        seen = '\x0b'
+                if re.search('[\x0b\x0c\x1c\x1d\x1e\x85\u2028\u2029]', seen):
+                    ctx.count('out_of_domain:reader_ends_lines_at_characters_that_are_not_line_ends_in_files')
+                    return
             nas = [g['non_ascii'] for g, _ in parts if g['non_ascii']['header']]
             if nas:
                 # a table whose generated header is not ASCII: the reader has to decode what the writer
@@ -847,6 +1019,16 @@ class Monitors:
                 ctx.hit('rows:1')
             if n >= 10000:
                 ctx.hit('rows:>=1e4')
+            # kind of target written -> kind of source read, and what the unwritten coordinates looked like
+            for g, _ in parts:
+                ctx.hit(f"roundtrip:{g['keys']['target']}->{tkind}")
+                for oc in g['others']:
+                    ctx.hit(f"other_coord:{oc}:{g['coord_mode']}")
+                unusual = g['others'] - {'points', 'scalar', 'edges_is_dimension_coordinate'}
+                if unusual and n == 1:
+                    ctx.hit('other_coord:rows_1')
+                if len(unusual) > 1:
+                    ctx.hit('other_coord:several_kinds_side_by_side')
             # data whose units / coordinate name are not ASCII, by header source x kind of target written
             for g, _ in parts:
                 a = g['non_ascii']
@@ -983,10 +1165,166 @@ NA_TARGETS = [('path_str', ''), ('path_pathlib', ''), ('path_str', '.gz'), ('pat
               ('path_str', '.xz'), ('handle', ''), ('handle_crlf', ''), ('stringio', ''), ('stringio_universal', '')]
 # a file that stands at the path before the call: longer than what is written, bytes that are not UTF-8
 OLD_FILE = b'# d [\xc5]  Y [\xb5s] E\n' + b''.join(b'%d 2.000000000000000000e+00 3.000000000000000000e+00\n' % i for i in range(20000))
+# ---- file-like targets: "Name or file handle", i.e. whatever numpy's text writer / reader takes as one ----
+# writers: objects handed to save_xye; readers: objects handed to load_xye.  Which of them the unchanged numpy
+# calls accept was established on the unchanged tree (text handles that are not io.IOBase instances:
+# NamedTemporaryFile wrappers, codecs stream writers / readers, user objects with nothing but write() / nothing
+# but line iteration; handles without a name: TemporaryFile, SpooledTemporaryFile before and after roll-over,
+# TextIOWrapper over BytesIO, bz2 / lzma text handles; gzip text handles; os.PathLike objects that are not
+# pathlib.Path: user class with __fspath__, PurePosixPath, os.DirEntry; subclasses of str).
+FILELIKE_WRITERS = ['ntf', 'tmpfile', 'spooled_mem', 'spooled_rolled', 'codecs_ascii', 'codecs_utf8', 'codecs_latin1',
+                    'gzip_wt', 'bz2_wt', 'lzma_wt', 'textio_bytesio', 'textio_bytesio_crlf', 'tee',
+                    'pathlike', 'str_subclass', 'direntry', 'purepath']
+# (writer, forced file-name suffix) -> kinds of source the written text is read through
+READERS_OF = {
+    ('ntf', ''): ['same', 'path_str', 'codecs', 'lines'],
+    ('tmpfile', ''): ['same'],
+    ('spooled_mem', ''): ['same'],
+    ('spooled_rolled', ''): ['same'],
+    ('codecs_ascii', ''): ['codecs', 'path_pathlib'],
+    ('codecs_utf8', ''): ['codecs', 'handle', 'iteronly'],
+    ('codecs_latin1', ''): ['codecs', 'path_str'],
+    ('gzip_wt', '.gz'): ['comp_rt', 'path_str'],
+    ('bz2_wt', '.bz2'): ['comp_rt', 'pathlike'],
+    ('lzma_wt', '.xz'): ['comp_rt', 'path_pathlib'],
+    ('textio_bytesio', ''): ['same', 'textio_new'],
+    ('textio_bytesio_crlf', ''): ['textio_new'],
+    ('tee', ''): ['lines', 'iteronly'],
+    ('pathlike', ''): ['pathlike', 'path_str', 'lines'],
+    ('str_subclass', ''): ['str_subclass', 'codecs'],
+    ('direntry', ''): ['direntry', 'handle'],
+    ('purepath', ''): ['purepath', 'iteronly'],
+    # the targets of old, read through the new kinds of source
+    ('path_str', ''): ['codecs', 'lines', 'direntry', 'pathlike'],
+    ('path_pathlib', ''): ['iteronly', 'str_subclass', 'purepath'],
+    ('handle', ''): ['codecs', 'lines', 'pathlike'],
+    ('handle_crlf', ''): ['codecs', 'iteronly'],
+    ('path_str', '.gz'): ['comp_rt'],
+    ('path_pathlib', '.bz2'): ['comp_rt'],
+    ('path_str', '.xz'): ['comp_rt'],
+}
+FILELIKE_PAIRS = [(w, sfx, r) for (w, sfx), rs in READERS_OF.items() for r in rs]
+CODECS_SAFE_HEADERS = ['default', 'plain', 'hash', 'lf_rows', 'crlf_rows', 'empty', 'edge_newlines', 'bare_cr_rows',
+                       'witness_cr', 'default_cr_name']
+FILELIKE_REFUSE_TARGETS = ['ntf', 'tee', 'codecs_utf8', 'spooled_mem', 'pathlike']
+# what the unchanged numpy call itself does not take as a name or handle: executed and counted only
+FOREIGN_TARGETS = ['bytes_path', 'pathlike_bytes', 'int_fd']
+
+# ---- coordinates that are NOT written: every kind scipp lets a 1-d data array carry ----
+# workload kind -> class the monitor derives from the data array it sees (other_coord_classes)
+OTHER_KINDS = {
+    'edges': 'edges', 'edges_int': 'edges_int64', 'edges_string': 'edges_string',
+    'edges_datetime': 'edges_datetime64', 'int64': 'int64', 'int32': 'int32', 'float32': 'float32',
+    'bool': 'bool', 'string': 'string', 'datetime': 'datetime64', 'vector': 'vector3', 'variances': 'variances',
+    'scalar_string': 'scalar_string', 'scalar_datetime': 'scalar_datetime64', 'scalar_vector': 'scalar_vector3',
+    'scalar_int': 'scalar_int64', 'outer_edges': 'not_along_dim_edges',
+}
+OTHER_LIST = list(OTHER_KINDS)
+OTHER_NAMES = {'edges': 'tof_edges', 'edges_int': 'channel', 'edges_string': 'bin_label', 'edges_datetime': 'time_edges',
+               'int64': 'detector_id', 'int32': 'pixel', 'float32': 'monitor', 'bool': 'flag', 'string': 'label',
+               'datetime': 'time', 'vector': 'position', 'variances': 'background', 'scalar_string': 'title',
+               'scalar_datetime': 'start_time', 'scalar_vector': 'source_position', 'scalar_int': 'run_number'}
 ROW_LIKE = ['1 2 3', '4 5 6', '1.5 -2.5e3 0.25', '0 0 0', '1e300 1e-300 5e-324', '7 8 9']
 SEPS = ['\n', '\r\n', '\r']
 # ASCII characters that str.splitlines() treats as line boundaries but files do not, and other controls
 CTRL = ['\x0b', '\x0c', '\x1c', '\x1d', '\x1e', '\x00', '\x1a', '\x7f', '\t', '\x08', '\x1b']
+
+
+class Tee:
+    """A user's sink: nothing but write()."""
+
+    def __init__(self, sink):
+        self._sink = sink
+
+    def write(self, text):
+        self._sink.write(text)
+        return len(text)
+
+
+class Lines:
+    """A user's source: nothing but an iterator over lines."""
+
+    def __init__(self, lines):
+        self._it = iter(lines)
+
+    def __iter__(self):
+        return self
+
+    def __next__(self):
+        return next(self._it)
+
+
+class IterOnly:
+    """A user's source: an iterable of lines that is not its own iterator."""
+
+    def __init__(self, lines):
+        self._lines = list(lines)
+
+    def __iter__(self):
+        return iter(self._lines)
+
+
+class FsPath:
+    """os.PathLike that is not a pathlib class."""
+
+    def __init__(self, p):
+        self._p = p
+
+    def __fspath__(self):
+        return self._p
+
+    def __repr__(self):
+        return f'FsPath({self._p!r})'
+
+
+class StrSub(str):
+    pass
+
+
+def file_lines(text, conv):
+    """The lines a file with this text hands out (line ends as files have them, not str.splitlines)."""
+    return re.findall(r'[^\r\n]*(?:\r\n|\r|\n)|[^\r\n]+' if conv == 'universal' else r'[^\n]*\n|[^\n]+', text)
+
+
+def pread_all(fd):
+    return os.pread(fd, os.fstat(fd).st_size, 0).decode('latin-1')
+
+
+def make_other(rng, kind, dim, n):
+    """One coordinate of the given kind for n rows along dim; it is never the one that gets written."""
+    if kind == 'edges':
+        return sc.array(dims=[dim], values=np.sort(finite_bits(rng, n + 1)), unit='us')
+    if kind == 'edges_int':
+        return sc.array(dims=[dim], values=np.arange(n + 1) + int(rng.integers(-5, 1000)), unit=None)
+    if kind == 'edges_string':
+        return sc.array(dims=[dim], values=[f'b{i}' for i in range(n + 1)])
+    if kind == 'edges_datetime':
+        return sc.datetimes(dims=[dim], values=(np.arange(n + 1) * int(rng.integers(1, 90))).astype('datetime64[s]'))
+    if kind == 'int64':
+        return sc.array(dims=[dim], values=rng.integers(-2**62, 2**62, size=n), unit=None)
+    if kind == 'int32':
+        return sc.array(dims=[dim], values=rng.integers(-2**31, 2**31 - 1, size=n).astype(np.int32), unit='counts')
+    if kind == 'float32':
+        return sc.array(dims=[dim], values=rng.normal(size=n).astype(np.float32), unit='counts')
+    if kind == 'bool':
+        return sc.array(dims=[dim], values=rng.random(n) < 0.5)     # looks like a mask, is a coordinate
+    if kind == 'string':
+        return sc.array(dims=[dim], values=[f'p{int(v)}' for v in rng.integers(0, 99, size=n)])
+    if kind == 'datetime':
+        return sc.datetimes(dims=[dim], values=rng.integers(0, 2**31, size=n).astype('datetime64[s]'))
+    if kind == 'vector':
+        return sc.vectors(dims=[dim], values=rng.normal(size=(n, 3)), unit='m')
+    if kind == 'variances':
+        return sc.array(dims=[dim], values=finite_bits(rng, n), variances=np.abs(rng.normal(size=n)), unit='counts')
+    if kind == 'scalar_string':
+        return sc.scalar(TITLES[int(rng.integers(0, len(TITLES)))])
+    if kind == 'scalar_datetime':
+        return sc.datetime(int(rng.integers(0, 2**31)), unit='s')
+    if kind == 'scalar_vector':
+        return sc.vector(rng.normal(size=3), unit='m')
+    if kind == 'scalar_int':
+        return sc.scalar(int(rng.integers(0, 99999)), unit=None)
+    raise KeyError(kind)
 
 
 def finite_bits(rng, n):
@@ -1105,6 +1443,36 @@ def schedule():
                             'na_index': c, 'rows': 1 if ti % 5 == 0 else None,
                             'existing': t.startswith('path') and ti % 2 == 0})
                 c += 1
+    # every kind of unwritten coordinate x the written one named with coord= / deduced as dimension-coordinate;
+    # for coord=: the unwritten one is the dimension-coordinate itself (edges 'tof' next to 'tof_center')
+    other_targets = ['stringio', 'path_str', 'handle', 'path_pathlib', 'stringio_universal', 'ntf']
+    j = 0
+    for kd in OTHER_LIST:
+        for mode in ('explicit', 'deduced', 'explicit_named_dim'):
+            if mode == 'explicit_named_dim' and (kd.startswith('scalar') or kd == 'outer_edges'):
+                continue
+            out.append({'kind': 'accept', 'header': ['default', 'plain', 'lf_rows'][j % 3] if j % 4 else 'default',
+                        'target': other_targets[j % len(other_targets)], 'rows': 1 if j % 5 == 2 else None,
+                        'others': [kd], 'coord_mode': mode.split('_')[0], 'other_named_dim': mode.endswith('dim')})
+            j += 1
+    for combo in (['edges', 'scalar_string'], ['edges', 'bool', 'int64'], ['edges_datetime', 'variances'],
+                  ['outer_edges', 'edges'], ['string', 'vector', 'float32', 'edges_int']):
+        for mode in ('explicit', 'deduced'):
+            out.append({'kind': 'accept', 'header': 'default', 'target': other_targets[j % len(other_targets)],
+                        'rows': None, 'others': combo, 'coord_mode': mode})
+            j += 1
+    # every kind of file-like target numpy takes, written and read back through every kind of source that fits
+    # (codecs readers end lines where files do not: header classes without such characters for them; units and
+    # names inside ASCII so that every encoding of the pool can hold the generated header)
+    for j, (w, sfx, r) in enumerate(FILELIKE_PAIRS):
+        pool = CODECS_SAFE_HEADERS if r == 'codecs' else HEADER_CLASSES
+        out.append({'kind': 'accept', 'header': pool[(3 * j) % len(pool)], 'target': w,
+                    'suffix': sfx, 'reader': r, 'rows': 1 if j % 6 == 1 else None, 'nonascii': ''})
+    for j, t in enumerate(FILELIKE_REFUSE_TARGETS):
+        for i in range(3):
+            out.append({'kind': 'refuse', 'cls': REFUSE_CLASSES[(3 * j + i) % len(REFUSE_CLASSES)], 'target': t})
+    for t in FOREIGN_TARGETS:
+        out.append({'kind': 'foreign', 'target': t})
     return out
 
 
@@ -1120,6 +1488,9 @@ def random_spec(rng, only=None):
                 'target': REFUSE_TARGETS[int(rng.integers(0, len(REFUSE_TARGETS)))]}
     w = np.array([5, 2, 1, 1, 2, 1, 2, 2, 1.5, 0.3, 1.5, 3, 1.5])
     h = HEADER_CLASSES[int(rng.choice(len(HEADER_CLASSES), p=w / w.sum()))]
+    if only is None and rng.random() < 0.3:
+        tw, sfx, rd = FILELIKE_PAIRS[int(rng.integers(0, len(FILELIKE_PAIRS)))]
+        return {'kind': 'accept', 'header': h, 'target': tw, 'suffix': sfx, 'reader': rd, 'rows': None}
     return {'kind': 'accept', 'header': h, 'target': TARGETS[int(rng.integers(0, len(TARGETS)))], 'rows': None}
 
 
@@ -1127,6 +1498,170 @@ class Env:
     def __init__(self, tmp, scn_save, scn_load, mon, ctx, tier):
         self.tmp, self.save, self.load, self.mon, self.ctx, self.tier = tmp, scn_save, scn_load, mon, ctx, tier
         self.nfile = 0
+        self.cleanup = []     # run at the end of the case (handles that stay open for reading back)
+        self.medium = {}      # where the text of an in-memory target of this case lives
+
+    def end_case(self):
+        for f in reversed(self.cleanup):
+            try:
+                f()
+            except Exception:  # noqa: BLE001
+                pass
+        self.cleanup = []
+        self.medium = {}
+        self.mon.observers.clear()
+        self.mon.ledger.clear()
+
+    def direntry(self, path):
+        d, b = os.path.split(path)
+        with os.scandir(d) as it:
+            for e in it:
+                if e.name == b:
+                    return e
+        raise FileNotFoundError(path)
+
+    def open_filelike(self, kind, suffix=None):
+        """The file-like targets numpy takes beyond str / pathlib.Path / open() handles / StringIO."""
+        mon = self.mon
+        if kind == 'tee':
+            sink = io.StringIO()
+            t = Tee(sink)
+            mon.register(t, ('obj', id(sink)), sink.getvalue, conv='lf', pos=lambda: len(sink.getvalue()))
+            self.medium = {'sink': sink}
+            return t, None, None
+        if kind in ('spooled_mem', 'spooled_rolled'):
+            f = tempfile.SpooledTemporaryFile(max_size=10**9 if kind == 'spooled_mem' else 64, mode='w+', dir=self.tmp)
+
+            def read_spooled():
+                inner = f._file             # TextIOWrapper over BytesIO, over a real file once rolled over
+                if inner.closed:
+                    return None
+                inner.flush()
+                buf = inner.buffer
+                return buf.getvalue().decode('latin-1') if isinstance(buf, io.BytesIO) else pread_all(buf.fileno())
+            mon.register(f, ('obj', id(f)), read_spooled, encoding=f.encoding)
+            self.cleanup.append(f.close)
+            return f, None, None
+        if kind in ('textio_bytesio', 'textio_bytesio_crlf'):
+            b = io.BytesIO()
+            f = io.TextIOWrapper(b, encoding='utf-8', newline='\r\n' if kind.endswith('crlf') else None)
+
+            def read_bytesio():
+                if not f.closed:
+                    f.flush()
+                return b.getvalue().decode('latin-1')
+            mon.register(f, ('obj', id(b)), read_bytesio, encoding='utf-8')
+            self.medium = {'bytesio': b}
+            return f, None, None
+        if kind == 'tmpfile':
+            f = tempfile.TemporaryFile('w+', dir=self.tmp)
+
+            def read_tmpfile():
+                if f.closed:
+                    return None
+                f.flush()
+                return pread_all(f.fileno())
+            mon.register(f, ('obj', id(f)), read_tmpfile, encoding=f.encoding)
+            self.cleanup.append(f.close)
+            return f, None, None
+        if kind == 'ntf':
+            f = tempfile.NamedTemporaryFile('w+', dir=self.tmp, prefix='ntf', suffix='.xye')
+            self.cleanup.append(f.close)
+            return f, f.name, None
+        if kind in ('gzip_wt', 'bz2_wt', 'lzma_wt'):
+            import importlib
+            modname, sfx = {'gzip_wt': ('gzip', '.gz'), 'bz2_wt': ('bz2', '.bz2'), 'lzma_wt': ('lzma', '.xz')}[kind]
+            p = self.fresh_path(suffix=sfx)
+            f = importlib.import_module(modname).open(p, 'wt')
+            if kind == 'gzip_wt':
+                return f, p, f.close     # has a name, can be flushed: looked into like any handle on a path
+            rp = os.path.realpath(p)
+
+            def pos_behind_compressor():
+                f.flush()
+                return f.buffer.tell()     # uncompressed bytes handed to the compressor so far
+            mon.register(f, ('path', rp), path_reader(rp), pos=pos_behind_compressor, encoding=f.encoding,
+                         deferred=True)    # bz2 / lzma put nothing into the file before close()
+
+            def close_and_judge():
+                f.close()
+                mon.finish_target(f)
+            return f, p, close_and_judge
+        p = self.fresh_path(suffix='')
+        if kind.startswith('codecs_'):
+            f = codecs.open(p, 'w', encoding=kind[len('codecs_'):])
+            return f, p, f.close
+        if kind == 'pathlike':
+            return FsPath(p), p, None
+        if kind == 'str_subclass':
+            return StrSub(p), p, None
+        if kind == 'purepath':
+            return pathlib.PurePosixPath(p), p, None
+        if kind == 'direntry':
+            with open(p, 'w'):
+                pass
+            return self.direntry(p), p, None
+        raise KeyError(kind)
+
+    def make_reader(self, rkind, wkind, tgt, path):
+        """-> (object handed to load_xye, closer) for text that went into ``tgt`` / stands under ``path``."""
+        mon = self.mon
+        if rkind == 'same':
+            tgt.flush()
+            tgt.seek(0)
+            return tgt, None
+        if rkind == 'textio_new':
+            b = self.medium['bytesio']
+            f = io.TextIOWrapper(io.BytesIO(b.getvalue()), encoding='utf-8')
+            mon.register(f, ('obj', id(b)), lambda: b.getvalue().decode('latin-1'), encoding='utf-8')
+            return f, None
+        if rkind in ('lines', 'iteronly'):
+            if 'sink' in self.medium:
+                sink = self.medium['sink']
+                text, conv, key, read = sink.getvalue(), 'lf', ('obj', id(sink)), sink.getvalue
+            else:
+                rp = os.path.realpath(path)
+                enc = wkind[len('codecs_'):] if wkind.startswith('codecs_') else None
+                try:
+                    with open(path, encoding=enc, newline='') as f:
+                        text = f.read()
+                except UnicodeError:
+                    with open(path, encoding='latin-1', newline='') as f:
+                        text = f.read()
+                conv, key, read = 'universal', ('path', rp), path_reader(rp)
+            lines = file_lines(text, conv)
+            src = Lines(lines) if rkind == 'lines' else IterOnly(lines)
+            mon.register(src, key, read, conv=conv, pos=lambda: 0)
+            return src, None
+        if hasattr(tgt, 'flush') and not getattr(tgt, 'closed', True):
+            tgt.flush()
+        if rkind == 'path_str':
+            return path, None
+        if rkind == 'path_pathlib':
+            return pathlib.Path(path), None
+        if rkind == 'pathlike':
+            return FsPath(path), None
+        if rkind == 'str_subclass':
+            return StrSub(path), None
+        if rkind == 'purepath':
+            return pathlib.PurePosixPath(path), None
+        if rkind == 'direntry':
+            return self.direntry(path), None
+        if rkind == 'handle':
+            f = open(path)
+            return f, f.close
+        if rkind == 'codecs':
+            f = codecs.open(path, 'r', encoding=wkind[len('codecs_'):] if wkind.startswith('codecs_') else 'utf-8')
+            return f, f.close
+        if rkind == 'comp_rt':
+            import importlib
+            sfx = [x for x in ('.gz', '.bz2', '.xz') if path.endswith(x)][0]
+            f = importlib.import_module({'.gz': 'gzip', '.bz2': 'bz2', '.xz': 'lzma'}[sfx]).open(path, 'rt')
+            if sfx != '.gz':      # no name on these
+                rp = os.path.realpath(path)
+                mon.register(f, ('path', rp), path_reader(rp), encoding=f.encoding)
+            return f, f.close
+        raise KeyError(rkind)
 
     def fresh_path(self, compressed_ok=False, suffix=None):
         self.nfile += 1
@@ -1143,6 +1678,8 @@ class Env:
             return io.StringIO(), None, None
         if kind == 'stringio_universal':
             return io.StringIO(newline=None), None, None
+        if kind in FILELIKE_WRITERS:
+            return self.open_filelike(kind, suffix)
         p = self.fresh_path(compressed_ok=kind in ('path_str', 'path_pathlib'), suffix=suffix)
         if existing and kind in ('path_str', 'path_pathlib'):
             with open(p, 'wb') as f:    # under a compressed name: not even a compressed file
@@ -1172,7 +1709,7 @@ def vary_alignment(rng, da, p):
     return da
 
 
-def assemble(rng, dim, y, var, unit, coords, layout, n_extra):
+def assemble(rng, dim, y, var, unit, coords, layout, n_extra, others=None, outer_edges=False):
     """A 1-d data array with the given values and 1-d coordinates, reached the way users reach one.
 
     dict: from variables (every coordinate aligned); flags: alignment cleared at random;
@@ -1180,11 +1717,16 @@ def assemble(rng, dim, y, var, unit, coords, layout, n_extra):
     2-d coordinates become the 1-d coordinates, the outer dimension-coordinate and other outer
     coordinates stay behind as unaligned scalars; range_squeeze: length-1 range, then squeeze.
     ``n_extra`` further coordinates that do not depend on the row (scalars) are added: leftovers of the
-    slicing where there is slicing, plain scalar coordinates otherwise."""
-    taken = set(coords) | {dim}
+    slicing where there is slicing, plain scalar coordinates otherwise.  ``others``: coordinates of any other
+    kind (bin-edges, other dtypes, ...) that ride along; ``outer_edges``: the dimension sliced away had a
+    bin-edge coordinate, which stays behind as an unaligned pair of edges (slicing layouts only)."""
+    others = others or {}
+    taken = set(coords) | set(others) | {dim}
     extra_names = [nm for nm in LEFTOVER_NAMES if nm not in taken][:n_extra]
     if layout in ('dict', 'flags'):
-        da = sc.DataArray(sc.array(dims=[dim], values=y, variances=var, unit=unit), coords=dict(coords))
+        items = list(coords.items()) + list(others.items())
+        items = [items[i] for i in rng.permutation(len(items))] if others else items
+        da = sc.DataArray(sc.array(dims=[dim], values=y, variances=var, unit=unit), coords=dict(items))
         for nm in extra_names:
             da.coords[nm] = sc.scalar(float(finite_bits(rng, 1)[0]), unit='K')
             if rng.random() < 0.5:
@@ -1215,6 +1757,15 @@ def assemble(rng, dim, y, var, unit, coords, layout, n_extra):
             cs[nm] = sc.array(dims=[outer], values=finite_bits(rng, m), unit=None)   # -> unaligned scalar
         else:
             cs[nm] = sc.scalar(float(finite_bits(rng, 1)[0]), unit='K')             # stays an aligned scalar
+    for nm, c in others.items():
+        if c.ndim == 1 and c.dtype == sc.DType.float64 and c.variances is None and rng.random() < 0.35:
+            a = finite_bits(rng, m * c.shape[0]).reshape(m, c.shape[0])    # 2-d in the parent (edges: n+1 wide)
+            a[i] = c.values
+            cs[nm] = sc.array(dims=dims2, values=a if dims2[0] == outer else np.ascontiguousarray(a.T), unit=c.unit)
+        else:
+            cs[nm] = c
+    if outer_edges:
+        cs[outer] = sc.array(dims=[outer], values=np.sort(finite_bits(rng, m + 1)), unit='deg')
     da2 = sc.DataArray(data, coords=cs)
     if layout == 'range_squeeze':
         da = da2[outer, i:i + 1].squeeze(outer)
@@ -1251,13 +1802,22 @@ def build_accept(rng, spec, tier, k):
     if na == 'name' and h not in ('default_hostile_name', 'default_cr_name'):
         names[0] = NON_ASCII_NAMES[na_i % len(NON_ASCII_NAMES)]
     names = list(dict.fromkeys(names))
+    other_kinds = list(spec.get('others') or [])
+    names = names[:max(1, 5 - len(other_kinds))]     # 1..5 coordinates in all
     ncoords = len(names)
     chosen = names[0]
     explicit = bool(rng.random() < 0.5)
+    mode = spec.get('coord_mode')
+    if mode:
+        explicit = mode == 'explicit'
     dim = chosen if (not explicit or rng.random() < 0.3) else (
         'row' if 'row' not in names else 'row_')
     if not explicit and ncoords == 1 and rng.random() < 0.5:
         dim = 'row'   # a single coordinate need not be the dimension-coordinate
+    if mode == 'deduced' or (other_kinds and not explicit):
+        dim = chosen  # with further coordinates the rule selects the dimension-coordinate
+    if spec.get('other_named_dim') and dim == chosen:
+        dim = 'row' if 'row' not in names else 'row_'
     cunit = ASCII_UNITS[int(rng.integers(0, len(ASCII_UNITS)))]
     unit = ASCII_UNITS[int(rng.integers(0, len(ASCII_UNITS)))]
     if na in ('coord', 'both'):
@@ -1281,7 +1841,28 @@ def build_accept(rng, spec, tier, k):
     n_extra = 0
     if (explicit or dim == chosen) and ncoords < 5 and rng.random() < 0.6:
         n_extra = int(rng.integers(1, 6 - ncoords))
-    da = assemble(rng, dim, y, var, unit, coords, layout, n_extra)
+    n_extra = max(0, min(n_extra, 5 - ncoords - len(other_kinds)))
+    # the coordinates that are not written, of every kind a 1-d data array can carry (bin-edges next to the
+    # bin-centres that are written, other dtypes, variances, ...): scheduled, and at random
+    room = 5 - ncoords - n_extra
+    if not other_kinds and (explicit or dim == chosen) and room > 0 and rng.random() < 0.35:
+        other_kinds = [OTHER_LIST[j] for j in rng.permutation(len(OTHER_LIST))[:int(rng.integers(1, min(2, room) + 1))]]
+    others = {}
+    name_dim = explicit and dim != chosen and dim not in names and (
+        spec.get('other_named_dim') or (spec.get('others') is None and rng.random() < 0.4))
+    for kd in other_kinds:
+        if kd == 'outer_edges':
+            continue
+        nm = OTHER_NAMES[kd]
+        while nm in names or nm in others or nm == dim:
+            nm += '_'
+        if name_dim and not kd.startswith('scalar'):
+            nm, name_dim = dim, False     # the dimension-coordinate itself is one of the unwritten ones
+        others[nm] = make_other(rng, kd, dim, n)
+    outer_edges = 'outer_edges' in other_kinds
+    if outer_edges and layout in ('dict', 'flags'):
+        layout = LAYOUTS[2 + int(rng.integers(0, 3))]
+    da = assemble(rng, dim, y, var, unit, coords, layout, n_extra, others, outer_edges)
     kw = {}
     if explicit:
         kw['coord'] = chosen
@@ -1290,7 +1871,7 @@ def build_accept(rng, spec, tier, k):
         kw['header'] = hdr
     band = '1' if n == 1 else '2-3' if n < 4 else '4-300' if n <= 300 else '301-3000' if n < 10000 else '1e4'
     sig = ('accept', spec['target'], h, len(da.coords), explicit, band, vcls, layout,
-           (na or '-') + (spec.get('suffix') or ''))
+           (na or '-') + (spec.get('suffix') or ''), '+'.join(sorted(other_kinds)), spec.get('reader') or '-')
     trivial = (h == 'default' and vcls == 'ordinary' and len(da.coords) == 1 and not hostile
                and layout == 'dict')
     return da, kw, dim, chosen, unit, cunit, sig, trivial
@@ -1408,7 +1989,8 @@ def build_refuse(rng, cls):
 
 
 # ---- file objects used as streams -------------------------------------------
-STREAM_TARGETS = ['stringio', 'stringio_universal', 'handle_w+', 'handle_w+_crlf', 'handle_a+', 'handle_w_then_r']
+STREAM_TARGETS = ['stringio', 'stringio_universal', 'handle_w+', 'handle_w+_crlf', 'handle_a+', 'handle_w_then_r',
+                  'ntf', 'tmpfile', 'spooled_mem', 'spooled_rolled']
 CALLER_TEXT = ['title', 'comment', 'comment_open_end', 'rowlike', 'blank']
 TITLES = ['LaB6 calibration, run 4711, bank 2', 'XYE export', 'sample: Si  T=293K', 'bank 3 / 1 2 3', 'run 17']
 
@@ -1438,6 +2020,8 @@ class Stream:
             self.w = io.StringIO()
         elif kind == 'stringio_universal':
             self.w = io.StringIO(newline=None)
+        elif kind in ('ntf', 'tmpfile', 'spooled_mem', 'spooled_rolled'):
+            self.w, self.path, _ = env.open_filelike(kind)     # closed by env.end_case()
         else:
             self.path = env.fresh_path()
             if kind == 'handle_a+':
@@ -1561,10 +2145,44 @@ def run_stream(shard, k, env, rng, spec):
                 pass
         ctx.hit('target:stream_' + kind)
     finally:
-        mon.ledger.clear()
         st.close()
+        env.end_case()
     if k < 2:
         ctx.sample({'k': k, 'stream': kind, 'items': [{a: b for a, b in it.items() if a != 'lkw'} for it in items]})
+
+
+def run_foreign(env, rng, spec):
+    """Things the unchanged numpy call does not take as a name or handle (bytes names, file descriptors):
+    outside "path and file-object targets"; executed, the monitors count them."""
+    da, kw, dim, chosen, unit, cunit, sig, trivial = build_accept(
+        rng, {'kind': 'accept', 'header': 'default', 'target': spec['target'], 'rows': None}, env.tier, 0)
+    p = env.fresh_path(suffix='')
+    fd = None
+    if spec['target'] == 'bytes_path':
+        tgt = p.encode()
+    elif spec['target'] == 'pathlike_bytes':
+        tgt = FsPath(p.encode())
+    else:
+        fd = os.open(p, os.O_RDWR | os.O_CREAT)
+        tgt = fd
+    try:
+        for call in (lambda: env.save(tgt, da, **kw),
+                     lambda: env.load(tgt, dim=dim, unit=unit, coord_unit=cunit)):
+            try:
+                call()
+                env.ctx.count('foreign_target_accepted:' + spec['target'])
+            except Exception:  # noqa: BLE001
+                env.ctx.count('foreign_target_rejected:' + spec['target'])
+    finally:
+        if fd is not None:
+            try:
+                os.close(fd)
+            except OSError:
+                pass
+        env.end_case()
+        if os.path.exists(p):
+            os.remove(p)
+    env.ctx.case(('foreign', spec['target']), trivial=True)
 
 
 def run_one(shard, k, env):
@@ -1578,6 +2196,9 @@ def run_one(shard, k, env):
     if spec['kind'] == 'stream':
         run_stream(shard, k, env, rng, spec)
         return
+    if spec['kind'] == 'foreign':
+        run_foreign(env, rng, spec)
+        return
     if spec['kind'] == 'refuse':
         da, kw, parts = build_refuse(rng, spec['cls'])
         tgt, path, closer = env.open_target(spec['target'])
@@ -1588,6 +2209,7 @@ def run_one(shard, k, env):
         finally:
             if closer:
                 closer()
+            env.end_case()
             if path and os.path.exists(path):
                 os.remove(path)
         ctx.case(('refuse', spec['cls'], spec['target'], 'coord' in kw, 'header' in kw))
@@ -1595,7 +2217,10 @@ def run_one(shard, k, env):
     da, kw, dim, chosen, unit, cunit, sig, trivial = build_accept(rng, spec, env.tier, k)
     ctx.hit('header:' + spec['header'])
     ctx.hit('target:' + spec['target'])
-    tgt, path, closer = env.open_target(spec['target'], spec.get('suffix'), bool(spec.get('existing')))
+    suffix = spec.get('suffix')
+    if spec.get('reader') and suffix is None:
+        suffix = ''        # a reader that does not decompress cannot read what a compressing name wrote
+    tgt, path, closer = env.open_target(spec['target'], suffix, bool(spec.get('existing')))
     saved = False
     try:
         try:
@@ -1611,7 +2236,12 @@ def run_one(shard, k, env):
             if rng.random() < 0.5 or chosen != dim:
                 lkw['coord'] = chosen
             fh = None
-            if path is None:
+            if spec.get('reader'):
+                mon.label['reader'] = spec['reader']
+                src, fh_close = env.make_reader(spec['reader'], spec['target'], tgt, path)
+                if fh_close:
+                    env.cleanup.append(fh_close)
+            elif path is None:
                 tgt.seek(0)
                 src = tgt
             elif spec['target'].startswith('handle') and rng.random() < 0.5:
@@ -1626,6 +2256,7 @@ def run_one(shard, k, env):
             finally:
                 if fh:
                     fh.close()
+                mon.label.pop('reader', None)
             if spec['target'].startswith('path') and not path.endswith(('.gz', '.bz2', '.xz')) \
                     and (spec.get('nonascii') or rng.random() < 0.25):
                 # the file save_xye put under the path, read through a text handle opened the default way
@@ -1635,7 +2266,7 @@ def run_one(shard, k, env):
                     except Exception:  # noqa: BLE001  judged by the round-trip monitor
                         pass
     finally:
-        mon.ledger.clear()
+        env.end_case()
         if path and os.path.exists(path):
             os.remove(path)
     ctx.case(sig, trivial=trivial)
@@ -1696,12 +2327,21 @@ def requirements(tier):
                  'nonascii_generated_header:rows_1', 'nonascii_generated_header:path:beyond_latin1',
                  'nonascii_generated_header:path:beyond_bmp',
                  'path:file_existed_before', 'path:file_existed_before_and_header_not_ascii']
-              + ['nonascii_generated_header:path:' + cp for cp in NA_UNIT_SYMBOLS])
+              + ['nonascii_generated_header:path:' + cp for cp in NA_UNIT_SYMBOLS]
+              # every kind of file-like target, written and read back; refusals on them
+              + ['file_judged:' + w for w in FILELIKE_WRITERS]
+              + sorted({f'roundtrip:{w}->{r}' for w, _, r in FILELIKE_PAIRS})
+              + ['refuse_on:' + t for t in FILELIKE_REFUSE_TARGETS]
+              # every kind of coordinate that is not written, next to a written one named / deduced
+              + [f'other_coord:{OTHER_KINDS[kd]}:{mode}' for kd in OTHER_LIST for mode in ('explicit', 'deduced')]
+              + ['other_coord:edges_is_dimension_coordinate:explicit', 'other_coord:rows_1',
+                 'other_coord:several_kinds_side_by_side'])
     return {'events': {'save_xye.file': 250 if q else 10000, 'load_xye.roundtrip': 250 if q else 10000,
                        'save_xye.refusal': 80 if q else 3000, '_deduce_coord': 60 if q else 2000,
                        '_generate_xye_header': 60 if q else 2000,
                        'load_xye.roundtrip.generated_header_not_ascii': 40 if q else 400},
-            'forced': forced}
+            'forced': forced,
+            'counters': {'out_of_domain:unknown_target_type': len(FOREIGN_TARGETS)}}
 
 
 def run(shard, ctx):
